@@ -136,6 +136,10 @@ pub trait Property: Sync {
     fn shrink_iters(&self) -> u32 {
         2000
     }
+    /// a single case running longer than this is reported as non-termination
+    fn watchdog_secs(&self) -> u64 {
+        300
+    }
 }
 
 pub struct RunCfg {
@@ -283,6 +287,19 @@ fn seed_bytes(seed: u64, prop: &str, class: usize, shard: usize) -> [u8; 32] {
     out
 }
 
+type Slot<C> = Mutex<Option<(Instant, C)>>;
+
+fn checked_slot<P: Property>(p: &P, case: &P::Case, slot: Option<&Slot<P::Case>>) -> Outcome {
+    if let Some(s) = slot {
+        *s.lock().unwrap() = Some((Instant::now(), case.clone()));
+    }
+    let o = checked(p, case);
+    if let Some(s) = slot {
+        *s.lock().unwrap() = None;
+    }
+    o
+}
+
 fn checked<P: Property>(p: &P, case: &P::Case) -> Outcome {
     match guard(|| p.check(case)) {
         Ok(o) => o,
@@ -327,10 +344,37 @@ pub fn run_property<P: Property>(p: &P, cfg: &RunCfg) -> Value {
     let stop = AtomicBool::new(false);
     let results: Mutex<Vec<(usize, JobResult)>> = Mutex::new(Vec::new());
     let nthreads = cfg.threads.max(1);
+    let slots: Vec<Slot<P::Case>> = (0..nthreads).map(|_| Mutex::new(None)).collect();
+    let all_done = AtomicBool::new(false);
+    let limit = std::time::Duration::from_secs(p.watchdog_secs());
 
     std::thread::scope(|s| {
-        for _ in 0..nthreads {
-            s.spawn(|| loop {
+        // watchdog: a case that does not return is a violation of the "always returns" clauses
+        s.spawn(|| {
+            while !all_done.load(Ordering::Relaxed) {
+                std::thread::sleep(std::time::Duration::from_millis(250));
+                for sl in &slots {
+                    let stuck = {
+                        let g = sl.lock().unwrap();
+                        match &*g {
+                            Some((t, c)) if t.elapsed() > limit => Some(c.clone()),
+                            _ => None,
+                        }
+                    };
+                    if let Some(c) = stuck {
+                        let sig = format!("{}:no-return-within-{}s", p.id(), limit.as_secs());
+                        let v = write_replay(p, cfg, "watchdog", &c, &sig, "call did not return within the watchdog limit");
+                        println!("VIOLATION property={} replay={}", p.id(), v["replay"].as_str().unwrap_or("?"));
+                        eprintln!("  signature: {sig}");
+                        std::process::exit(1);
+                    }
+                }
+            }
+        });
+        let workers: Vec<_> = (0..nthreads).map(|ti| {
+            let slot = &slots[ti];
+            let (next, stop, results, jobs) = (&next, &stop, &results, &jobs);
+            s.spawn(move || loop {
                 if stop.load(Ordering::Relaxed) {
                     break;
                 }
@@ -339,7 +383,7 @@ pub fn run_property<P: Property>(p: &P, cfg: &RunCfg) -> Value {
                     break;
                 }
                 let (ci, shard, n) = jobs[j];
-                let r = run_job(p, cfg, ci, shard, n);
+                let r = run_job(p, cfg, ci, shard, n, slot);
                 if r.violation.is_some() {
                     // keep going on other classes, but bound the damage
                     let mut g = results.lock().unwrap();
@@ -351,8 +395,13 @@ pub fn run_property<P: Property>(p: &P, cfg: &RunCfg) -> Value {
                 } else {
                     results.lock().unwrap().push((j, r));
                 }
-            });
+            })
+        }).collect();
+        for w in workers {
+            let _ = w.join();
         }
+        // sweep phase runs below with its own scope; keep the watchdog alive only for generated jobs
+        all_done.store(true, Ordering::Relaxed);
     });
 
     // sweep: run in parallel chunks, no shrinking (cases are already minimal by construction)
@@ -522,7 +571,7 @@ fn write_replay<P: Property>(p: &P, cfg: &RunCfg, class: &str, case: &P::Case, s
     json!({"signature": sig, "message": msg, "replay": path, "class": class, "config": cfg.config_name})
 }
 
-fn run_job<P: Property>(p: &P, cfg: &RunCfg, ci: usize, shard: usize, n: u64) -> JobResult {
+fn run_job<P: Property>(p: &P, cfg: &RunCfg, ci: usize, shard: usize, n: u64, slot: &Slot<P::Case>) -> JobResult {
     let classes = p.classes();
     let mut jr = JobResult { class: ci, ..Default::default() };
     let config = Config {
@@ -541,7 +590,7 @@ fn run_job<P: Property>(p: &P, cfg: &RunCfg, ci: usize, shard: usize, n: u64) ->
     let jrc = RefCell::new(&mut jr);
     let failed_sig: RefCell<Option<String>> = RefCell::new(None);
     let res = runner.run(&strat, |case| {
-        let o = checked(p, &case);
+        let o = checked_slot(p, &case, Some(slot));
         let shrinking = failed_sig.borrow().is_some();
         match &o.verdict {
             Verdict::Pass => {
